@@ -363,6 +363,8 @@ Step(S, e) ==
         LET C == S.ctx[e.a] IN
         [S |-> [S EXCEPT !.ctx[e.a].st = "on", !.cstk = Append(SeqWithout(@, e.a), e.a)],
          bad |-> IfBad(NoFaultyCtx(P) => C.st \in {"new", "off"}, "C06.alt.resume") \cup
+                 \* whatever its pause() / resume() do (also when they raise): a context whose block has been left is done
+                 IfBad(C.st # "closed", "C06.alt.afterexit") \cup
                  IfBad((NoFaultyCtx(P) /\ ~S.nonlifo) => e.a \notin Range(S.cstk), "C07.lifo")]
 
     [] e.e = "Pause" ->
@@ -372,6 +374,7 @@ Step(S, e) ==
                          !.cstk = SeqWithout(@, e.a),
                          !.assigned = {z \in @ : z[3] # e.a}],
          bad |-> IfBad(NoFaultyCtx(P) => C.st \in {"on", "exiting"}, "C06.alt.pause") \cup
+                 IfBad(C.st # "closed", "C06.alt.afterexit") \cup
                  IfBad((NoFaultyCtx(P) /\ ~S.nonlifo) => (S.cstk # <<>> /\ Last(S.cstk) = e.a), "C07.lifo")]
 
     [] e.e = "Timer" ->       \* the with-block of AsyncTimer e.a has been left; e.b = its total_time
